@@ -346,10 +346,23 @@ def run(ctx):
                   minimum=1)
     ra = ctx.rule('R-AFTERRELEASE', 'no use of an object after the function gave its (last owned) reference away',
                   minimum=40)
+    rhs = ctx.rule('R-HANDLESPEC', 'every member of IntrusivePtr keeps the reference count in step with the handles that '
+                   'exist (ownership conservation) and leaves the pointers its row says: abstract interpretation of each '
+                   'member on null / same / other inputs, temporaries destroyed at the end of the full expression',
+                   minimum=60)
+    rhm = ctx.rule('R-HANDLEMOVE', 'move assignment of Future / Promise / SharedPromise / Task never releases the state the '
+                   'left-hand side held by a bare DecRef: it leaves in the right-hand side and meets its destructor',
+                   minimum=6)
     rha = ctx.rule('R-HANDLEASSIGN', 'IntrusivePtr same-type move assignment swaps (the handles\' defaulted move '
                    'assignment relies on the moved-from destructor protocol)', minimum=4)
     for cfg, fb in sorted(fbs.items()):
         ctx.guard(lambda: lib_core.check_handle_assign(ctx, fb, rha))
+        if cfg == 'K17':
+            from rules import lib_iptr
+            ctx.guard(lambda: lib_iptr.check_handle_spec(ctx, fb, rhs))
+        from rules import lib_iptr as _li
+        if (ctx.guard(lambda: _li.check_handle_move(ctx, fb, rhm)) or 0) < 3:
+            ctx.guard(lambda: ctx.broken('R-HANDLEMOVE: handle move assignments not instantiated in %s' % cfg))
         ctx.guard(lambda: check_core(ctx, fb, ro, rf, rb))
         ctx.guard(lambda: lib_core.check_after_release(ctx, fb, ra))
         ctx.guard(lambda: check_delete(ctx, fb, rd, ctx.root))
